@@ -315,7 +315,44 @@ def main_check(pid, tier, seed, replay=None):
     notes.append("coq evaluation of %d cases %.1fs" % (len(cases), time.time() - t_eval))
     for e in errors:
         problems.append(("evaluation", "coqc failed on a case shard: " + e))
-    codes_map = spec.get("codes", {})
+    codes_map = dict(spec.get("codes", {}))
+    # 4'. further case streams of the same property (another driver / another model file)
+    for si, st in enumerate(spec.get("streams", [])):
+        sspec = dict(spec); sspec.update(st)
+        codes_map.update(st.get("codes", {}))
+        rc0, out0, dt0 = coq_make(coq_targets(sspec, pid))
+        scases = []
+        for di, drv in enumerate(st["drivers"]):
+            if drv["bin"] not in built:
+                with Lock(".lock_build"):
+                    rc, out = go_build(drv["bin"])
+                if rc != 0:
+                    problems.append(("build", "driver %s does not build against the current tree:\n%s" % (drv["bin"], out[-3000:])))
+                    continue
+                built.add(drv["bin"])
+            n = drv["n_thorough"] if tier == "thorough" else drv["n_quick"]
+            outp = os.path.join(wd, "cases_s%d_%d.jsonl" % (si, di))
+            if os.path.exists(outp):
+                os.remove(outp)
+            rc, out, dt, cmd = run_driver(drv, seed, n, outp, timeout=drv.get("timeout", 1500))
+            notes.append("stream %d driver %s n=%d rc=%d %.1fs" % (si + 1, drv["bin"], n, rc, dt))
+            got = read_cases(outp)
+            for i, c in enumerate(got):
+                c["_src"] = "s%dd%d#%d" % (si + 1, di, i)
+                c["kind"] = "stream%d:%s" % (si + 1, c.get("kind", "?"))
+            scases.extend(got)
+            if rc != 0:
+                driver_failures.append((drv, rc, out, cmd))
+        if scases:
+            t_eval = time.time()
+            sbad, serr = eval_cases(pid, sspec, scases, wd, tag="stream%d" % (si + 1))
+            notes.append("coq evaluation of %d cases of stream %d %.1fs" % (len(scases), si + 1, time.time() - t_eval))
+            for e in serr:
+                problems.append(("evaluation", "coqc failed on a case shard of stream %d: %s" % (si + 1, e)))
+            base = len(cases)
+            cases.extend(scases)
+            for j, cs in sbad.items():
+                bad[base + j] = cs
     mismatches = [i for i, cs in bad.items() if 1 in cs]
     failing = {i: [c for c in cs if c >= 10] for i, cs in bad.items() if any(c >= 10 for c in cs)}
     for i in mismatches:
